@@ -53,11 +53,14 @@ def rev_ent():
     return REV_ENT
 
 
-REWRITES = ["hex", "dec", "named", "prefix-m", "prefix-mml", "defaultns", "ws", "ws-crlf", "comment", "pi", "xmldecl", "mjx2", "mjx3", "squote",
+# namespace prefixes: any XML name is a legal prefix - one letter, the customary ones, upper and mixed case, with a digit / underscore / hyphen / dot
+PREFIXES = {"prefix-m": "m", "prefix-mml": "mml", "prefix-M": "M", "prefix-MML": "MML", "prefix-Math": "Math", "prefix-mathML": "mathML", "prefix-ns0": "ns0",
+            "prefix-m_1": "m_1", "prefix-mml-3": "mml-3", "prefix-x.y": "x.y"}
+REWRITES = ["hex", "dec", "named"] + list(PREFIXES) + ["defaultns", "ws", "ws-crlf", "comment", "pi", "xmldecl", "mjx2", "mjx3", "squote",
             "tokws-lf", "tokws-crlf", "tokws-crref", "tokws-tab", "tokws-inner-crlf", "tokws-inner-ref", "tokws-inner-named", "tok-inner-comment", "tok-inner-pi",
             "tok-inner-cdata"]
 # pairs that cannot be combined (two answers to the same surface question)
-EXCLUSIVE = [{"hex", "dec", "named"}, {"prefix-m", "prefix-mml", "defaultns"}, {"mjx2", "mjx3"}, {"ws", "ws-crlf"},
+EXCLUSIVE = [{"hex", "dec", "named"}, set(PREFIXES) | {"defaultns"}, {"mjx2", "mjx3"}, {"ws", "ws-crlf"},
              {"tokws-lf", "tokws-crlf", "tokws-crref", "tokws-tab"},
              {"tokws-inner-crlf", "tokws-inner-ref", "tokws-inner-named", "tok-inner-comment", "tok-inner-pi", "tok-inner-cdata"}]
 # a blank INSIDE token text written so that the XML parser splits the text into several nodes (character reference, comment, processing
@@ -85,7 +88,7 @@ def enc_text(s, opts, attr=False):
 
 def surface(t, opts, depth=0, root=True):
     """Print term t (a terms.T rooted at <math>) in the surface form selected by opts (a set)."""
-    pre = "m:" if "prefix-m" in opts else "mml:" if "prefix-mml" in opts else ""
+    pre = "".join(v + ":" for k, v in PREFIXES.items() if k in opts)
     q = "'" if "squote" in opts else '"'
     attrs = dict(t.attrs)
     a = ""
